@@ -200,7 +200,7 @@ def gen_constraint(r, pre, length):
 
 def gen_rules(r, positioning, ncols, allow=None, max_rules=5, posallow=None):
     """-> (pre, [(sortkey, pre, constraint, action, pattern)])"""
-    pre = r.choice([0, 0, 0, 1, 2])
+    pre = r.choice([0, 0, 0, 0, 1, 1, 2, 2, 3, 4])
     rules = []
     seen = set()
     for _ in range(r.randrange(1, max_rules + 1)):
@@ -254,13 +254,20 @@ def gen_font(r, npasses=None, dirn=None, maxloop=None, posallow=None, allow=None
         trans, nst, ntr, nsu, rm = trie_fsm([ru[4] for ru in rules], ncols)
         # `rtl`: some passes run against the font's direction (bit 5 of the pass flags)
         specs.append(dict(pre=pre, rules=rules, ml=maxloop or r.choice([1, 2, 5, 5, 20]), trans=trans, nst=nst, ntr=ntr, nsu=nsu, rm=rm,
-                          flags=(32 if rtl and r.random() < 0.3 else 0), pcon=b''))
+                          flags=(32 if rtl and r.random() < 0.3 else 0), pcon=b'', minpre=pre))
 
     def passes_fn(i, base):
         sp = specs[i]
-        return mk_pass([ru[:4] for ru in sp["rules"]], ncols, cols, sp["trans"], sp["nst"], sp["ntr"], sp["nsu"], sp["rm"], [0], sp["pre"], sp["pre"], base, maxloop=sp["ml"], flags=sp["flags"],
-                       passcon=sp["pcon"])
+        return mk_pass([ru[:4] for ru in sp["rules"]], ncols, cols, sp["trans"], sp["nst"], sp["ntr"], sp["nsu"], sp["rm"], [0] * (sp["pre"] - sp["minpre"] + 1), sp["minpre"], sp["pre"], base,
+                       maxloop=sp["ml"], flags=sp["flags"], passcon=sp["pcon"])
     d = r.choice([0, 0, 1]) if dirn is None else dirn
+    # passes whose minimum pre-context is smaller than the rules' (all start states 0): near the start of the text the matcher then runs
+    # with fewer context slots than the matched rule wants, and Pass::testConstraint has to turn the rule down (context < preContext) -
+    # drawn from a stream of its own
+    mp = r.__class__(r.random())
+    for sp in specs:
+        if sp["pre"] and mp.random() < 0.5:
+            sp["minpre"] = mp.randrange(0, sp["pre"])
     gl = r.__class__(r.random())          # glyph attributes come from their own stream so that the model line can repeat them
     if constraints:
         # pass constraints (Pass::testPassConstraint: run once on the first slot of the stream, before the reversal; false = the pass is
@@ -303,8 +310,8 @@ def gen_font(r, npasses=None, dirn=None, maxloop=None, posallow=None, allow=None
     pm = []
     for sp in specs:
         pm.append("/".join([
-            "%d,%d,%d,%d,%d,%d,%d,%d" % (sp["ml"], sp["pre"], sp["pre"], ncols, sp["ntr"], sp["nst"], sp["nsu"], sp["flags"]),
-            ",".join(map(str, colarr)), "0",
+            "%d,%d,%d,%d,%d,%d,%d,%d" % (sp["ml"], sp["minpre"], sp["pre"], ncols, sp["ntr"], sp["nst"], sp["nsu"], sp["flags"]),
+            ",".join(map(str, colarr)), ",".join(["0"] * (sp["pre"] - sp["minpre"] + 1)),
             ";".join(",".join(map(str, row)) for row in sp["trans"]) or "-",
             ";".join((",".join(map(str, l)) or "-") for l in sp["rm"]) or "-",
             ";".join("%d,%d,%s,%s" % (ru[0], ru[1], ru[2].hex() or "-", ru[3].hex() or "-") for ru in sp["rules"]),
